@@ -138,7 +138,7 @@ static void step(void)
     case 11: if ((i = pick_kind(T_STR)) >= 0 && (j = pick_kind(T_STR)) >= 0 && i != j) { vh_op("str_append(#%d, #%d)", i, j); spif_str_append(pool[i].p, pool[j].p); vh_count("fill", 1); } break;
     case 12: if ((i = pick_kind(T_STR)) >= 0) { vh_op("str_done(#%d) then reuse", i); spif_str_done(pool[i].p);
                  if (spif_str_get_len(pool[i].p) != 0) vh_fail("done:str:not-empty", "done() left length %ld", (long) spif_str_get_len(pool[i].p));
-                 if (vh_coin(60)) { spif_str_init_from_ptr(pool[i].p, (spif_charptr_t) word()); } else { spif_str_append_from_ptr(pool[i].p, (spif_charptr_t) "re"); }
+                 { int g = (int) vh_below(10); if (g < 5) { spif_str_init_from_ptr(pool[i].p, (spif_charptr_t) word()); } else if (g < 8) { spif_str_append_from_ptr(pool[i].p, (spif_charptr_t) "re"); vh_count("done_reuse_without_reinit", 1); } else { spif_str_done(pool[i].p); vh_count("done_reuse_without_reinit", 1); } }
                  vh_count("done_reinit", 1); } break;
     case 13: if ((i = pick_kind(T_STR)) >= 0) { long n = (long) spif_str_get_len(pool[i].p); if (n > 0) { long idx = vh_range(0, n - 1), cnt = vh_range(1, n);
                  if (vh_coin(50)) { vh_op("str_substr(#%d,%ld,%ld)", i, idx, cnt); own(spif_str_substr(pool[i].p, (spif_stridx_t) idx, (spif_stridx_t) cnt), T_STR, 0); }
@@ -149,7 +149,11 @@ static void step(void)
                  if (f == 0) { vh_op("mbuff_append_from_ptr(#%d)", i); spif_mbuff_append_from_ptr(pool[i].p, (spif_byteptr_t) "\0ab", 3); vh_count("fill", 1); }
                  else if (f == 1) { vh_op("mbuff_dup(#%d)", i); own(spif_mbuff_dup(pool[i].p), T_MBUFF, 0); vh_count("copy", 1); }
                  else if (f == 2) { long n = (long) spif_mbuff_get_len(pool[i].p); if (n > 0) { vh_op("mbuff_subbuff(#%d,0,%ld)", i, n); own(spif_mbuff_subbuff(pool[i].p, 0, (spif_memidx_t) n), T_MBUFF, 0); vh_count("handed_out", 1); } }
-                 else { vh_op("mbuff_done(#%d)+init_from_ptr", i); spif_mbuff_done(pool[i].p); spif_mbuff_init_from_ptr(pool[i].p, (spif_byteptr_t) "xy", 2); vh_count("done_reinit", 1); } } break;
+                 else { int g = (int) vh_below(3); spif_mbuff_t m = pool[i].p;
+                        if (g == 0) { vh_op("mbuff_done(#%d)+init_from_ptr", i); spif_mbuff_done(m); spif_mbuff_init_from_ptr(m, (spif_byteptr_t) "xy", 2); }
+                        else if (g == 1) { vh_op("mbuff_done(#%d), reused without re-init: append_from_ptr", i); spif_mbuff_done(m); spif_mbuff_append_from_ptr(m, (spif_byteptr_t) "zz", 2); vh_count("done_reuse_without_reinit", 1); }
+                        else { vh_op("mbuff_done(#%d) twice", i); spif_mbuff_done(m); spif_mbuff_done(m); if (spif_mbuff_get_len(m)) vh_fail("done:mbuff:not-empty", "done() left length %ld", (long) spif_mbuff_get_len(m)); vh_count("done_reuse_without_reinit", 1); }
+                        vh_count("done_reinit", 1); } } break;
     case 16: if ((i = pick_kind(T_USTR)) >= 0) { int f = (int) vh_below(3);
                  if (f == 0) { vh_op("ustr_append_from_ptr(#%d)", i); spif_ustr_append_from_ptr(pool[i].p, (spif_charptr_t) word()); vh_count("fill", 1); }
                  else if (f == 1) { vh_op("ustr_dup(#%d)", i); own(spif_ustr_dup(pool[i].p), T_USTR, 0); vh_count("copy", 1); }
@@ -160,17 +164,31 @@ static void step(void)
                  if (f == 0) { vh_op("objpair_set_value(#%d, new)", i); spif_objpair_set_value(pool[i].p, new_label()); vh_count("fill", 1); }
                  else if (f == 1) { vh_op("objpair_set_key(#%d, new)", i); spif_objpair_set_key(pool[i].p, new_label()); vh_count("fill", 1); }
                  else if (f == 2) { spif_objpair_t p = pool[i].p; if (spif_objpair_get_key(p) && spif_objpair_get_value(p)) { vh_op("objpair_dup(#%d)", i); own(spif_objpair_dup(p), T_PAIR, 0); vh_count("copy", 1); } }
-                 else { vh_op("objpair_done(#%d)+init_from_both", i); spif_objpair_done(pool[i].p); spif_obj_t k = new_label(), v = new_label(); spif_objpair_init_from_both(pool[i].p, k, v); SPIF_OBJ_DEL(k); SPIF_OBJ_DEL(v); vh_count("done_reinit", 1); } } break;
+                 else { int g = (int) vh_below(3); spif_objpair_t pr = pool[i].p;
+                        if (g == 0) { vh_op("objpair_done(#%d)+init_from_both", i); spif_objpair_done(pr); spif_obj_t k = new_label(), v = new_label(); spif_objpair_init_from_both(pr, k, v); SPIF_OBJ_DEL(k); SPIF_OBJ_DEL(v); }
+                        else if (g == 1) { vh_op("objpair_done(#%d), reused without re-init: set_key+set_value", i); spif_objpair_done(pr); spif_objpair_set_key(pr, new_label()); spif_objpair_set_value(pr, new_label()); vh_count("done_reuse_without_reinit", 1); }
+                        else { vh_op("objpair_done(#%d) twice", i); spif_objpair_done(pr); spif_objpair_done(pr); if (spif_objpair_get_key(pr) || spif_objpair_get_value(pr)) vh_fail("done:objpair:not-empty", "done() left key/value behind"); vh_count("done_reuse_without_reinit", 1); }
+                        vh_count("done_reinit", 1); } } break;
     case 18: if ((i = pick_kind(T_TOK)) >= 0) { int f = (int) vh_below(4);
                  if (f == 0) { vh_op("tok_eval(#%d) again", i); spif_tok_eval(pool[i].p); vh_count("query", 1); }
                  else if (f == 1) { vh_op("tok_set_src(#%d)+eval", i); spif_tok_set_src(pool[i].p, spif_str_new_from_ptr((spif_charptr_t) word())); spif_tok_eval(pool[i].p); vh_count("fill", 1); }
                  else if (f == 2) { vh_op("tok_dup(#%d)", i); own(spif_tok_dup(pool[i].p), T_TOK, 0); vh_count("copy", 1); }
-                 else { vh_op("tok_done(#%d)+init_from_ptr+eval", i); spif_tok_done(pool[i].p); spif_tok_init_from_ptr(pool[i].p, (spif_charptr_t) "p q r"); spif_tok_eval(pool[i].p); vh_count("done_reinit", 1); } } break;
+                 else { int g = (int) vh_below(4); spif_tok_t t = pool[i].p;
+                        if (g == 0) { vh_op("tok_done(#%d)+init_from_ptr+eval", i); spif_tok_done(t); spif_tok_init_from_ptr(t, (spif_charptr_t) "p q r"); spif_tok_eval(t); }
+                        else if (g == 1) { vh_op("tok_done(#%d), reused without re-init: set_src+eval", i); spif_tok_done(t); spif_tok_set_src(t, spif_str_new_from_ptr((spif_charptr_t) "u v")); spif_tok_eval(t); vh_count("done_reuse_without_reinit", 1); }
+                        else if (g == 2) { vh_op("tok_done(#%d) twice", i); spif_tok_done(t); spif_tok_done(t); vh_count("done_reuse_without_reinit", 1); }
+                        else { vh_op("tok_done(#%d), left emptied until deletion", i); spif_tok_done(t); vh_count("done_reuse_without_reinit", 1); }
+                        if (spif_tok_get_tokens(t) && g >= 2) vh_fail("done:tok:not-empty", "done() left a token list behind");
+                        vh_count("done_reinit", 1); } } break;
     case 19: if ((i = pick_kind(T_URL)) >= 0) { int f = (int) vh_below(4);
                  if (f == 0) { vh_op("url_unparse(#%d)", i); spif_url_unparse(pool[i].p); vh_count("query", 1); }
                  else if (f == 1) { vh_op("url_set_host(#%d)+unparse", i); spif_url_set_host(pool[i].p, spif_str_new_from_ptr((spif_charptr_t) "example.org")); spif_url_unparse(pool[i].p); vh_count("fill", 1); }
                  else if (f == 2) { vh_op("url_dup(#%d)", i); own(spif_url_dup(pool[i].p), T_URL, 0); vh_count("copy", 1); }
-                 else { vh_op("url_done(#%d)+init_from_ptr", i); spif_url_done(pool[i].p); spif_url_init_from_ptr(pool[i].p, (spif_charptr_t) "ftp://h/p"); vh_count("done_reinit", 1); } } break;
+                 else { int g = (int) vh_below(3); spif_url_t u = pool[i].p;
+                        if (g == 0) { vh_op("url_done(#%d)+init_from_ptr", i); spif_url_done(u); spif_url_init_from_ptr(u, (spif_charptr_t) "ftp://h/p"); }
+                        else if (g == 1) { vh_op("url_done(#%d), reused without re-init: set_host+unparse", i); spif_url_done(u); spif_url_set_host(u, spif_str_new_from_ptr((spif_charptr_t) "again.example")); spif_url_unparse(u); vh_count("done_reuse_without_reinit", 1); }
+                        else { vh_op("url_done(#%d) twice, left emptied until deletion", i); spif_url_done(u); spif_url_done(u); if (spif_url_get_host(u) || spif_url_get_path(u)) vh_fail("done:url:not-empty", "done() left components behind"); vh_count("done_reuse_without_reinit", 1); }
+                        vh_count("done_reinit", 1); } } break;
     case 20: if ((i = pick_kind(T_REGEXP)) >= 0) { int f = (int) vh_below(3);
                  if (f == 0) { vh_op("regexp_matches_ptr(#%d)", i); spif_regexp_matches_ptr(pool[i].p, (spif_charptr_t) "abc"); vh_count("query", 1); }
                  else if (f == 1) { vh_op("regexp_set_flags(#%d,\"i\")", i); spif_regexp_set_flags(pool[i].p, (spif_charptr_t) "i"); vh_count("fill", 1); }
